@@ -173,12 +173,12 @@ type fakeVotes struct {
 
 const notAsked = -1 << 40
 
-func (f *fakeVotes) Height() uint64           { return f.h }
-func (f *fakeVotes) Round() int               { return f.r }
-func (f *fakeVotes) Type() byte               { return f.t }
-func (f *fakeVotes) Size() int                { return f.size }
-func (f *fakeVotes) BitArray() *cmn.BitArray  { return f.ba.Copy() }
-func (f *fakeVotes) IsCommit() bool           { return f.commit }
+func (f *fakeVotes) Height() uint64          { return f.h }
+func (f *fakeVotes) Round() int              { return f.r }
+func (f *fakeVotes) Type() byte              { return f.t }
+func (f *fakeVotes) Size() int               { return f.size }
+func (f *fakeVotes) BitArray() *cmn.BitArray { return f.ba.Copy() }
+func (f *fakeVotes) IsCommit() bool          { return f.commit }
 func (f *fakeVotes) GetByIndex(i int) *types.Vote {
 	*f.asked = i
 	votes := make([]*types.Vote, maxInt(f.size, 0)) // `voteSet.votes[valIndex]` / `commit.Precommits[index]`
